@@ -39,6 +39,11 @@ JudgeFp(e) ==
     [] e.fn = "legendre" -> e.out = FpLegendre(p, e.a)
     [] e.fn = "sgn0" -> e.out = FpSgn0(e.a)
     [] e.fn = "negate_if" -> e.out = (IF e.s = 1 THEN FpNeg(p, e.a) ELSE e.a)
+    [] e.fn = "ypair" ->
+         LET n == FpNeg(p, e.a) IN
+         /\ e.out.neg = n /\ e.out.cmp = Cmp(e.a, n)
+         /\ e.out.s = FpSgn0(e.a) /\ e.out.sn = FpSgn0(n)
+         /\ (e.a # Zero => (e.out.cmp # 0 /\ e.out.s # e.out.sn))
     [] e.fn = "consts" ->
          LET s == TwoAdicity(Sub(p, One)) IN
          /\ e.out.char = p
@@ -113,6 +118,15 @@ JudgeExt(e) ==
     [] e.fn = "legendre" -> e.out = F2Legendre(e.a)
     [] e.fn = "sgn0" -> e.out = F2Sgn0(e.a)
     [] e.fn = "negate_if" -> e.out = (IF e.s = 1 THEN F2Neg(e.a) ELSE e.a)
+    [] e.fn = "ypair" ->
+         LET n == F2Neg(e.a) IN
+         /\ e.out.neg = n /\ e.out.cmp = F2Cmp(e.a, n)
+         /\ e.out.s = F2Sgn0(e.a) /\ e.out.sn = F2Sgn0(n)
+         /\ (e.a # F2Zero => e.out.cmp # 0)
+    [] e.fn = "sqrt_of_square" ->
+         /\ e.out.sq = F2Sqr(e.a)
+         /\ IsSome(e.out.root) /\ XCanon("Fq2", e.out.root[2]) /\ F2Sqr(e.out.root[2]) = e.out.sq
+         /\ e.out.leg = F2Legendre(e.out.sq) /\ e.out.leg # -1
     [] e.fn = "mul_by_1"  -> e.out = F6Mul(e.a, F6Of1(e.c1))
     [] e.fn = "mul_by_01" -> e.out = F6Mul(e.a, F6Of01(e.c0, e.c1))
     [] e.fn = "conj" -> e.out = F12Conj(e.a)
